@@ -58,9 +58,17 @@ def sig_len(info):
     return info["bits"] // 8 if info["k"] == "rsa" else 2 * cs_of(info["bits"])
 
 
+class HarnessError(Exception):
+    """a failure of an oracle tool or helper of this check -- never evidence about the property"""
+
+
 def verify_sig(info, msg, sig, pss):
-    """Independent of SPSDK: `cryptography` directly.  ECDSA signatures are raw r||s."""
-    pub = c15_keys.public_key(info)
+    """Independent of SPSDK: `cryptography` directly.  ECDSA signatures are raw r||s.
+    False = the signature does not verify; a tool failure (key construction, backend error) raises HarnessError."""
+    try:
+        pub = c15_keys.public_key(info)
+    except Exception as ex:  # noqa
+        raise HarnessError(f"cannot build the verification key: {ex!r}") from ex
     try:
         if info["k"] == "rsa":
             pad = padding.PSS(mgf=padding.MGF1(hashes.SHA256()), salt_length=32) if pss else padding.PKCS1v15()
@@ -74,7 +82,9 @@ def verify_sig(info, msg, sig, pss):
             pub.verify(der, msg, ec.ECDSA(h))
         return True
     except (InvalidSignature, ValueError):
-        return False
+        return False                # ValueError: signature bytes of a shape the scheme cannot even decode
+    except Exception as ex:  # noqa
+        raise HarnessError(f"signature verifier failed: {ex!r}") from ex
 
 
 def hash_for(bits):
@@ -452,7 +462,7 @@ def derived_streams(tier, rng, w, dc_cases, dc_results):
         amb = w.soccs[socc]
         ma, mi = struct.unpack("<2H", ver)
         hl = 32 if amb["ele"] else (48 if (ma == 2 and mi == 1 and not amb["sha256"]) else 64 if (ma == 2 and mi == 2 and not amb["sha256"]) else 32)
-        for variant in range(6):
+        for variant in (range(6) if (thorough or len(b) < 700) else (0, 2, 4)):
             vma, vmi = (ma, mi)
             uu = b[8:24]
             so = socc
@@ -810,13 +820,19 @@ def run(tier):
         vlib.coqchk(rep, PID, THEOREMS)
     vlib.audit(rep)
     # database facts for the generators / oracles: from the extraction when it worked, else straight from the implementation
+    def harness_stop(what, ex):
+        rep.obligation("harness:" + what, False, repr(ex))
+        return rep.finish(rule="the run stopped on a harness problem before any case was evaluated",
+                          trusted_base=["this is a failure of the check's own tooling, not a statement about the property"],
+                          checker_cmd="")
     try:
-        c15_keys.load_pool(KEYDIR)
+        pool = c15_keys.load_pool(KEYDIR)
+    except Exception as ex:  # noqa
+        return harness_stop("committed key fixture tools/props/c15.keys.json loads", ex)
+    try:
         db = gen["db"] if gen else vlib.run_impl("c15_impl.py", {"mode": "extract", "keydir": KEYDIR}, timeout=900)
     except Exception as ex:  # noqa
-        rep.obligation("implementation: database facts", False, repr(ex))
-        return rep.finish(rule="", trusted_base=[], checker_cmd="")
-    pool = c15_keys.load_pool(KEYDIR)
+        return harness_stop("implementation runner delivers the database facts", ex)
     w = World(db, pool)
     streams = gen_cases(tier, rng, w)
     flat, owner = [], []
@@ -835,7 +851,10 @@ def run(tier):
                                                           timeout=3000)["results"], parts))
         return [r for o in outs for r in o]
     t_impl = time.time()
-    impl = run_impl_chunks(flat)
+    try:
+        impl = run_impl_chunks(flat)
+    except Exception as ex:  # noqa
+        return harness_stop("implementation runner (tools/impl/c15_impl.py) completes the first-round cases", ex)
     vlib.log(f"  implementation: {len(flat)} first-round cases in {time.time() - t_impl:.1f} s")
     # second round: inputs derived from exported credentials
     d2 = derived_streams(tier, rng, w, flat, impl)
@@ -866,7 +885,10 @@ def run(tier):
             flat2.append(c)
             owner2.append(name)
     t_impl = time.time()
-    impl2 = run_impl_chunks(flat2, chunk=600)
+    try:
+        impl2 = run_impl_chunks(flat2, chunk=600)
+    except Exception as ex:  # noqa
+        return harness_stop("implementation runner (tools/impl/c15_impl.py) completes the derived cases", ex)
     vlib.log(f"  implementation: {len(flat2)} derived cases in {time.time() - t_impl:.1f} s")
     streams.update(d2)
     flat += flat2
@@ -875,14 +897,19 @@ def run(tier):
 
     # ---- property oracles on the implementation's outputs
     nviol = 0
+    oracle_failures = []
     for c, r in zip(flat, impl):
         hits = []
-        if c["op"] in ("dc", "dar") and c.get("v2"):
-            hits += oracle_dcv2(c, r, w)
-        elif c["op"] in ("dc", "dar"):
-            hits += oracle_dc(c, r, w)
-        if c["op"] == "dar":
-            hits += oracle_dar(c, r, w)
+        try:
+            if c["op"] in ("dc", "dar") and c.get("v2"):
+                hits += oracle_dcv2(c, r, w)
+            elif c["op"] in ("dc", "dar"):
+                hits += oracle_dc(c, r, w)
+            if c["op"] == "dar":
+                hits += oracle_dar(c, r, w)
+        except Exception as ex:  # noqa  (HarnessError or a bug of the oracle itself: not a statement about SPSDK)
+            oracle_failures.append(f"{type(ex).__name__}: {ex} on case {str({k: v for k, v in c.items() if k not in ('requests',)})[:200]}")
+            hits = []
         if c["op"] == "dac":
             want = spec_dac(bytes.fromhex(c["data"]), w)
             got = r["dac"]
@@ -901,6 +928,8 @@ def run(tier):
                                                     for k in set(c.get("keys", []) + ([c["dck"]] if "dck" in c else []))},
                          "how": "tools/impl/c15_impl.py mode=cases with this case"})
 
+    rep.obligation("harness:spec oracles and their tools (cryptography verifier, layout decoders) ran without failure",
+                   not oracle_failures, f"{len(oracle_failures)} failures; first: " + "; ".join(oracle_failures[:3]) if oracle_failures else "")
     # ---- correspondence: the Coq model on the same cases
     ndis, nskip, ncmp = 0, 0, 0
     dis_samples = []
